@@ -18,7 +18,7 @@ ASSUMPTIONS = ["matcher contract MC1-MC6 for the stub matcher (decided for the r
 
 def bounds(tier):
     return {"quick": "every pending-tag prefix (56) x K=1, every 5th x K=2 symbolic lines after the tag line (17 kinds), both error modes",
-            "thorough": "every pending-tag prefix x K=2 (K=3 on every 8th), both modes; every 2nd other prefix x K=2"}[tier]
+            "thorough": "every pending-tag prefix x K=2 (K=3 on every 20th), both modes; every 2nd other prefix x K=2"}[tier]
 
 
 def solver_part(tier):
@@ -68,7 +68,7 @@ def conditions(tier):
     if tier == "quick":
         cs = _p.pdrv_conditions(select="tags", k_tags=2, k_tags_rest=1, tag_stride=5, stop_too=True)
     else:
-        cs = _p.pdrv_conditions(select="tags", k_tags=3, k_tags_rest=2, tag_stride=8, stop_too=True) + _p.pdrv_conditions(k_all=2, k_tags=0, stop_too=False)[::2]
+        cs = _p.pdrv_conditions(select="tags", k_tags=3, k_tags_rest=2, tag_stride=20, stop_too=True) + _p.pdrv_conditions(k_all=2, k_tags=0, stop_too=False)[::2]
     if tier == "quick":
         cs += [c for c in _p.pdrv_conditions(k_all=1, k_tags=0, stop_too=False)]
     cs += _p.reuse_conditions(k=1, stride=6 if tier == "quick" else 1)
